@@ -35,6 +35,10 @@ class SourceTree:
         self.root = root
         self.files = dict(files)
         self._asts = {}
+        self._parsed = False
+        self._broken = {}
+        self.renames = []
+        self.inlined = []
         self.consulted = set()
         self._classes = None
 
@@ -67,17 +71,33 @@ class SourceTree:
         self.consulted.add(relpath)
         return self.files[relpath]
 
-    def ast(self, relpath):
-        if relpath not in self._asts:
-            src = self.text(relpath)
+    def _parse_all(self):
+        """parse every file once, then undo consistent renames against the reference snapshot (sa/canon.py)"""
+        if self._parsed:
+            return
+        self._parsed = True
+        for rel, src in self.files.items():
             try:
-                t = ast.parse(src, relpath)
+                t = ast.parse(src, rel)
             except SyntaxError as e:
-                raise AnalysisError("cannot parse %s: %s" % (relpath, e))
+                self._broken[rel] = str(e)
+                continue
             _link_parents(t)
             for n in ast.walk(t):
-                n._file = relpath
-            self._asts[relpath] = t
+                n._file = rel
+            self._asts[rel] = t
+        if not os.environ.get("VERIF_NOCANON"):
+            from . import canon, inline
+            ref = canon.load_reference()
+            self.renames = canon.canonicalize(self._asts, ref)
+            self.inlined = inline.inline_new_helpers(self._asts, ref)
+            self.inlined += inline.inline_new_constants(self._asts, ref)
+
+    def ast(self, relpath):
+        self._parse_all()
+        if relpath not in self._asts:
+            self.text(relpath)
+            raise AnalysisError("cannot parse %s: %s" % (relpath, self._broken.get(relpath, "?")))
         self.consulted.add(relpath)
         return self._asts[relpath]
 
